@@ -27,7 +27,7 @@ RULE = ("case = buffer size + drawing program (as for C03) + a flush, either `fl
         "distinct = distinct (op kinds, shape of the operation log).")
 ASSUMPTIONS = ["the terminal advances by the library's own width function (stated in the property); modelled after src/mockterm.c",
                "terminal at least as large as the buffer; no int overflow",
-               "texts are well-formed UTF-8 over any code points 1..0x1FFFFF (width function = the library's own, property C07); pens with fg, bg, bold, underline",
+               "texts are well-formed UTF-8 over any code points 1..0x1FFFFF (width function = the library's own, property C07); pens with all ten attributes incl. RGB8 secondaries (property C19)",
                "line styles 1..3"]
 TRUSTED = ["models coq/RBDefs.v, coq/RBFlushDefs.v hand-written after src/renderbuffer.c and src/mockterm.c; "
            "specification coq/RBFlushSpec.v (cell-wise expectation, exactly-once count) and coq/RBGlyphs.v "
